@@ -80,8 +80,9 @@ func c17(c *eng.Ctx, r *eng.Report) {
 // executed, the pending store takes it unless it is full. A reorged block's
 // transactions come back through this same path, so any further reason to drop
 // one makes it neither executed nor pending.
-func c17PushTotal(c *eng.Ctx, r *eng.Report) {
-	const rule = "R17.5"
+func c17PushTotal(c *eng.Ctx, r *eng.Report) { c17PushTotalAs(c, r, "R17.5") }
+
+func c17PushTotalAs(c *eng.Ctx, r *eng.Report, rule string) {
 	r.Min(rule, 1)
 	push := c.Func("service", "(*simpleContainer).push")
 	if !r.Anchor(push != nil, rule, "(*simpleContainer).push") {
@@ -164,6 +165,12 @@ func c17Order(c *eng.Ctx, r *eng.Report) {
 		}
 		r.Check(ok, rule, "(*service.TxPool).MarkExecuted:record-before-remove", c.Pos(me.Pos()), "executed records are put and flushed before the transactions leave the pending container", why)
 	}
+	c17UnmarkAs(c, r, rule)
+}
+
+// c17UnmarkAs: UnMarkExecuted deletes the executed record before it re-adds the
+// transaction (shared with C05, whose statement has the same clause).
+func c17UnmarkAs(c *eng.Ctx, r *eng.Report, rule string) {
 	um := c.Func("service", "(*TxPool).UnMarkExecuted")
 	if r.Anchor(um != nil, rule, "(*TxPool).UnMarkExecuted") {
 		var dels []*ssa.Call
